@@ -475,3 +475,12 @@ Section LD.
 End LD.
 
 (* strict mode (validator.mapsHaveSameStructure): see C07/StrictModel.v *)
+
+(* ---------- a presentation carried in a JWT: JWTPresClaims.refineFromJWTClaims (presentation_jwt.go) ----------
+   iss overrides holder, jti overrides id, BEFORE the "vp" claim is serialised for the embedded-proof check and the
+   validation: what is checked is what is returned.  (Credentials: refineFromJWTClaims of credential_jwt.go is
+   C16.Model.refine, imported read-only by Corr.v / Props.v.) *)
+Definition refine_vp (iss jti : string) (m : obj) : obj :=
+  let m := if nonempty iss then set_key "holder" (JStr iss) m else m in
+  if nonempty jti then set_key "id" (JStr jti) m else m.
+
